@@ -11,6 +11,7 @@ FINDING (replayed by the unit): `load_data(scale=True)` rescales the demands but
 or `scale_demand=True`: already normalised) the loaded instance is therefore NOT the stored problem (last example).
 -/
 import Rl4co.Proofs.MtvrpScale
+import Rl4co.Proofs.MtvrpComplete
 
 namespace Rl4co.Mtvrp
 open Rl4co.Spec.Mtvrp
@@ -50,15 +51,64 @@ theorem env_scaleDem {k : Int} (hk : 0 < k) (i : Inst) (as : List Nat) :
   · intro a; rw [h2]; exact mask_scale hk i _ a
   · rw [h2]; rfl
 
-/-- what `load_data(scale=True)` alone does — dividing the demands but NOT `vehicle_capacity` — is a different
-problem as soon as the stored capacity is not 1: demands 3 and 3 with capacity 4 cannot share a route, after dividing
-only the demands by 4 (unit: quarters, i.e. demands 3/4 against an unchanged capacity of 4 = 16 quarters) they can -/
-example : ¬ Feasible ⟨2, 4, fun j => if j = 0 then 0 else 3, fun _ => 0, false, none, fun _ => 0, fun _ => none,
-      fun _ => 0, fun _ _ => 0, fun _ _ => 0⟩ [1, 2, 0] ∧
-    Feasible ⟨2, 16, fun j => if j = 0 then 0 else 3, fun _ => 0, false, none, fun _ => 0, fun _ => none,
-      fun _ => 0, fun _ _ => 0, fun _ _ => 0⟩ [1, 2, 0] := by
-  refine ⟨fun h => ?_, (feasible_iff _ _).1 (by decide)⟩
-  have := (feasible_iff _ _).2 h
+/-! ### FINDING: `load_data(scale=True)` as it is (`storedOf`: the capacity is not rescaled) -/
+
+/-- C19 for the loader with `scale=True`, as the property demands it: the loaded instance is the stored problem -/
+def load_scale_statement : Prop :=
+  ∀ (k : Int) (loaded : Inst) (as : List Nat), 0 < k → (Feasible loaded as ↔ Feasible (storedOf k loaded) as)
+
+/-- demands 3 and 3 against capacity 4 (stored) become 3/4 and 3/4 against the UNCHANGED capacity 4 (here in quarters:
+demands 3, capacity 16 … written the other way round: loaded = demands 3, capacity 16; stored = demands 12, capacity 16) -/
+def ldInst : Inst :=
+  ⟨2, 16, fun j => if j = 0 then 0 else 3, fun _ => 0, false, none, fun _ => 0, fun _ => none, fun _ => 0,
+    fun _ _ => 0, fun _ _ => 0⟩
+
+theorem load_scale_counterexample : ¬ load_scale_statement := by
+  intro h
+  have := (h 4 ldInst [1, 2, 0] (by decide)).1 ((feasible_iff _ _).1 (by decide))
+  have := (feasible_iff _ _).2 this
   revert this; decide
+
+theorem timeOk_storedOf (k : Int) (c : Cmp) (i : Inst) : ∀ (r : List Nat) (cur : Nat) (t : Int),
+    timeOk c (storedOf k i) cur t r = timeOk c i cur t r
+  | [], _, _ => rfl
+  | a :: r, cur, t => by simp only [timeOk]; rw [timeOk_storedOf k c i r]; rfl
+
+theorem routeOk_storedOf {k : Int} (hk : 1 ≤ k) (i : Inst) (hnn : ∀ j, 0 ≤ i.dL j ∧ 0 ≤ i.dB j) (c : Cmp) (r : List Nat)
+    (h : RouteOk c (storedOf k i) r) : RouteOk c i r := by
+  have hk0 : 0 < k := by omega
+  obtain ⟨h1, h2, h3, h4, h5⟩ := h
+  have hL : (r.map (storedOf k i).dL).sum = k * (r.map i.dL).sum := sum_map_mul k i.dL r
+  have hB : (r.map (storedOf k i).dB).sum = k * (r.map i.dB).sum := sum_map_mul k i.dB r
+  have hcap : (storedOf k i).cap = i.cap := rfl
+  have nL : 0 ≤ (r.map i.dL).sum := sum_map_nonneg (fun j _ => (hnn j).1)
+  have nB : 0 ≤ (r.map i.dB).sum := sum_map_nonneg (fun j _ => (hnn j).2)
+  have mono : ∀ x : Int, 0 ≤ x → x ≤ k * x := by
+    intro x hx
+    have := Int.mul_le_mul_of_nonneg_right hk hx
+    simpa using this
+  rw [hL, hcap] at h1
+  rw [hB, hcap] at h2
+  refine ⟨Int.le_trans (mono _ nL) h1, ?_, ?_, h4, ?_⟩
+  · exact Int.le_trans (mono _ nB) h2
+  · unfold Ordered at h3 ⊢
+    refine h3.imp ?_
+    intro a b hab
+    have e1 : (storedOf k i).dB a = k * i.dB a := rfl
+    have e2 : (storedOf k i).dL b = k * i.dL b := rfl
+    rw [e1, e2, pos_mul_iff hk0, pos_mul_iff hk0] at hab; exact hab
+  · rw [timeOk_storedOf] at h5; exact h5
+
+/-- **partial 1 (what does hold)**: the loaded instance is a RELAXATION of the stored one — every solution of the stored
+problem stays feasible after `load_data(scale=True)`, but not conversely -/
+theorem load_scale_relaxes {k : Int} (hk : 1 ≤ k) (loaded : Inst) (hnn : ∀ j, 0 ≤ loaded.dL j ∧ 0 ≤ loaded.dB j)
+    (as : List Nat) (h : Feasible (storedOf k loaded) as) : Feasible loaded as :=
+  ⟨h.range, h.once, fun r hr hne => routeOk_storedOf hk loaded hnn .le r (h.route r hr hne)⟩
+
+/-- **partial 2 (the repaired loader)**: had `load_data` divided `vehicle_capacity` as well (stored = `scaleDem k loaded`),
+the statement would hold — and the environment would behave identically (`env_scaleDem`) -/
+theorem load_scale_repaired {k : Int} (hk : 0 < k) (loaded : Inst) (as : List Nat) :
+    Feasible loaded as ↔ Feasible (scaleDem k loaded) as :=
+  (feasible_scaleDem hk .le loaded as).symm
 
 end Rl4co.Mtvrp
